@@ -716,7 +716,7 @@ pub const GADGETS: &[&str] = &[
     "dangerous_call", "ioctl", "setuid_system", "chroot_only", "access_open", "umask_chmod", "malloc_sizeof_ptr",
     "rand_no_srand", "mult_malloc", "malloc_deref", "use_after_free", "double_free", "heap_overflow",
     "huge_malloc", "huge_stack", "printf_nonconst", "unchecked_return", "time_srand", "system_sprintf", "stack_overflow_store", "call_helper", "call_helper",
-    "string_building", "string_building", "callee_frees", "callee_frees", "realloc_use",
+    "string_building", "string_building", "callee_frees", "callee_frees", "realloc_use", "call_helper_ptr", "call_helper_ptr",
 ];
 
 impl<'a> Gen<'a> {
@@ -886,6 +886,45 @@ impl<'a> Gen<'a> {
                 b = call!(b, "realloc", &[ArgV::Reg(sv), ArgV::Const(0x40)]);
                 let v = cst(7, 1);
                 self.i_store(&mut b, sv, 4, v);
+            }
+            "call_helper_ptr" if self.helper != 0 && !p.stack_args => {
+                // helper_put(q) { *q = 0; } called with pointers at different offsets into one buffer,
+                // once with a bounds-checked variable offset: the callee's parameter object has to be
+                // related to the caller's buffer at every call site
+                let size = *self.r.pick(&[0x10u64, 0x18, 0x20, 0x40]);
+                b = call!(b, alloc, &[ArgV::Const(size), ArgV::Const(0xcc0)]);
+                self.i_mov_reg(&mut b, sv, ret);
+                let target = self.helper + 0x300;
+                let n = self.r.range(2, 5);
+                for k in 0..n {
+                    let off = if self.r.chance(80) { 8 * k } else { self.r.below(80) };
+                    b.next_insn();
+                    b.def(Some(reg(p.params[0], p.ptr)), expr("INT_ADD", &[reg(sv, p.ptr), cst(off, p.ptr)]));
+                    let next = slots();
+                    b = match self.end_with_call(b, CallTarget::Func(target), next, out) { Some(x) => x, None => return None };
+                }
+                if self.r.chance(60) {
+                    let idx_reg = p.callee_saved.iter().copied().find(|r| *r != sv && *r != p.sp && *r != p.fp).unwrap_or(p.killed[0]);
+                    let call_blk = slots();
+                    let skip_blk = slots();
+                    b.next_insn();
+                    let cond = self.u(1);
+                    let bound = *self.r.pick(&[0x10u64, 0x18, 0x20, 7]);
+                    b.def(Some(cond.clone()), expr("INT_LESSEQUAL", &[reg(idx_reg, p.ptr), cst(bound, p.ptr)]));
+                    let j0 = b.jmp_tid();
+                    let j1 = b.jmp_tid();
+                    b.jmps.push(json!({"tid": j0, "term": {"mnemonic": "CBRANCH", "goto": {"Direct": tid(format!("blk_{}", hex(call_blk)), &hex(call_blk))}, "condition": cond}}));
+                    b.jmps.push(json!({"tid": j1, "term": {"mnemonic": "BRANCH", "goto": {"Direct": tid(format!("blk_{}", hex(skip_blk)), &hex(skip_blk))}}}));
+                    out.push(b);
+                    self.note_addr(call_blk);
+                    let mut cb = Blk::new(call_blk, None);
+                    cb.def(Some(reg(p.params[0], p.ptr)), expr("INT_ADD", &[reg(sv, p.ptr), reg(idx_reg, p.ptr)]));
+                    match self.end_with_call(cb, CallTarget::Func(target), skip_blk, out) {
+                        Some(nb) => b = nb,
+                        None => return None,
+                    }
+                    self.note_addr(skip_blk);
+                }
             }
             "call_helper" if self.helper != 0 && !p.stack_args => {
                 // the same helper is called from several sites with different constant indices
@@ -1398,6 +1437,20 @@ pub fn generate(seed: u64) -> Workload {
         g.end_with_return(b, &mut outb);
         g.note_addr(a);
         subs.push(json!({"tid": tid(format!("sub_{}", hex(a)), &hex(a)), "term": {"name": "helper_set", "blocks": outb.iter().map(|b| b.to_json()).collect::<Vec<_>>(), "calling_convention": p.cconv}}));
+    }
+    if g.helper != 0 {
+        // helper_put(q) { *q = 0; q[8] = 1; }
+        let a = g.helper + 0x300;
+        let mut b = Blk::new(a, None);
+        b.def(None, expr("STORE", &[cst(SPACE_ID, 4), reg(p.params[0], p.ptr), cst(0, 1)]));
+        let t = g.u(p.ptr);
+        b.next_insn();
+        b.def(Some(t.clone()), expr("INT_ADD", &[reg(p.params[0], p.ptr), cst(8, p.ptr)]));
+        b.def(None, expr("STORE", &[cst(SPACE_ID, 4), t, cst(1, 1)]));
+        let mut outb = Vec::new();
+        g.end_with_return(b, &mut outb);
+        g.note_addr(a);
+        subs.push(json!({"tid": tid(format!("sub_{}", hex(a)), &hex(a)), "term": {"name": "helper_put", "blocks": outb.iter().map(|b| b.to_json()).collect::<Vec<_>>(), "calling_convention": p.cconv}}));
     }
     if g.helper != 0 {
         // release(p) { free(p); }  and  release2(p) { release(p); }  — frees hidden in callees
